@@ -43,7 +43,9 @@ func DecodeURL(logger s3log.AuditLogger, mm *metrics.Manager) fiber.Handler {
 		}
 		// the namespace the filesystem backends reserve for themselves inside a
 		// bucket is not addressable as an object key
-		if parts := strings.SplitN(strings.TrimPrefix(unescp, "/"), "/", 2); len(parts) == 2 && backend.IsReservedKey(parts[1]) {
+		// ... and neither is a key with an empty path segment: it would be
+		// another spelling of the key without it
+		if parts := strings.SplitN(strings.TrimPrefix(unescp, "/"), "/", 2); len(parts) == 2 && (backend.IsReservedKey(parts[1]) || backend.IsAliasedKey(parts[1])) {
 			return controllers.SendResponse(ctx, s3err.GetAPIError(s3err.ErrInvalidURI), &controllers.MetaOpts{Logger: logger, MetricsMng: mm})
 		}
 		// version ids and upload ids become file names in the backends: they
